@@ -357,6 +357,16 @@ func c16(c *Ctx) {
 				}
 			case *ssa.Call:
 				if core.CalleeName(x.Common()) != "builtin:append" {
+					// a helper that builds the list: its parameters stand for the arguments
+					if vals, subst, h := helperResult(x); h != nil && len(vals) > 0 {
+						r.Fn(core.FuncName(h))
+						core.WithSubst(subst, func() {
+							for _, rv := range vals {
+								walk(rv)
+							}
+						})
+						return
+					}
 					bad = append(bad, "value from "+shortName(core.CalleeName(x.Common())))
 					return
 				}
@@ -473,33 +483,70 @@ func c16(c *Ctx) {
 	// R-C16.4
 	if fn := c.need("R-C16.4", "protocol", "(*Conn).ClientNextProtos"); fn != nil {
 		recv := ssa.Value(fn.Params[0])
-		for i, ret := range core.Returns(fn) {
-			v := core.Strip(ret.Results[0])
-			ok, why := false, core.ValueName(v)
+		var fresh func(v ssa.Value, in *ssa.Function, depth int) (bool, string)
+		fresh = func(v ssa.Value, in *ssa.Function, depth int) (bool, string) {
+			v = core.Strip(v)
 			switch x := v.(type) {
 			case *ssa.Const:
-				ok, why = x.Value == nil, "nil"
+				return x.Value == nil, "nil"
 			case *ssa.MakeSlice:
-				ok = copiedFrom(fn, x, recv, "clientNextProtos")
-				why = "fresh make filled by copy"
+				return copiedFrom(in, x, recv, "clientNextProtos"), "fresh make filled by copy"
 			case *ssa.Slice:
 				if _, isAl := x.X.(*ssa.Alloc); isAl {
-					ok, why = true, "fresh (empty) literal"
+					return true, "fresh (empty) literal"
+				}
+			case *ssa.Call:
+				// a helper that makes the copy: every value it returns is fresh
+				if h := core.ModuleCallee(x.Common()); h != nil && depth < core.MaxSummaryDepth && h.Signature.Results().Len() == 1 {
+					all, why := true, "fresh copy made by "+core.FuncName(h)
+					core.WithSubst(core.FrameSubst(x.Common(), h), func() {
+						for _, hr := range core.Returns(h) {
+							if ok, w := fresh(core.ReturnOperand(hr, 0), h, depth+1); !ok {
+								all, why = false, w
+							}
+						}
+					})
+					return all, why
 				}
 			}
+			return false, core.ValueName(v)
+		}
+		for i, ret := range core.Returns(fn) {
+			ok, why := fresh(ret.Results[0], fn, 0)
 			r.Check(ok, "R-C16.4", fmt.Sprintf("(*protocol.Conn).ClientNextProtos return#%d", i), p.Pos(ret.Pos()), why, "returns a slice that aliases the connection's internal list ("+why+")")
 		}
 	}
 	if fn := c.need("R-C16.4", "protocol", "NewConn"); fn != nil {
 		for i, st := range storesToField(fn, "protocol.Conn", "clientNextProtos") {
-			v := core.Strip(st.Val)
+			var freshIn func(v ssa.Value, in *ssa.Function, depth int) bool
+			freshIn = func(v ssa.Value, in *ssa.Function, depth int) bool {
+				switch x := core.Strip(v).(type) {
+				case *ssa.Const:
+					return x.Value == nil
+				case *ssa.MakeSlice:
+					k, isK := core.ConstInt(x.Len)
+					return (isK && k == 0) || copiedFromPath(in, x, "WithExtraAlpnProtos") || (in == fn && copiedIntoField(fn, st, "WithExtraAlpnProtos"))
+				case *ssa.Slice:
+					_, ok := x.X.(*ssa.Alloc)
+					return ok
+				case *ssa.Call:
+					if h := core.ModuleCallee(x.Common()); h != nil && depth < core.MaxSummaryDepth && h.Signature.Results().Len() == 1 {
+						all := true
+						core.WithSubst(core.FrameSubst(x.Common(), h), func() {
+							for _, hr := range core.Returns(h) {
+								if !freshIn(core.ReturnOperand(hr, 0), h, depth+1) {
+									all = false
+								}
+							}
+						})
+						return all
+					}
+				}
+				return false
+			}
 			ok := false
-			switch x := v.(type) {
-			case *ssa.MakeSlice:
-				k, isK := core.ConstInt(x.Len)
-				ok = (isK && k == 0) || copiedFromPath(fn, x, "WithExtraAlpnProtos") || copiedIntoField(fn, st, "WithExtraAlpnProtos")
-			case *ssa.Slice:
-				_, ok = x.X.(*ssa.Alloc)
+			if _, isConst := core.Strip(st.Val).(*ssa.Const); !isConst {
+				ok = freshIn(st.Val, fn, 0)
 			}
 			r.Check(ok, "R-C16.4", fmt.Sprintf("protocol.NewConn clientNextProtos store#%d", i), p.Pos(st.Pos()), "fresh copy", "the connection keeps the caller's slice (a later modification by the listener or application changes the connection's metadata)")
 		}
